@@ -694,7 +694,21 @@ func extraC11Normaliser(c *Ctx, r *Report) {
 			}
 		}
 	}
-	// switch lowered to a chain of comparisons whose returns share one block: fall back to the phi of constants
+	// the same table held in a map[string]string the normaliser looks its argument up in
+	if n == 0 {
+		if tab, _, ok := c.lookupHelper(fn); ok {
+			for _, k := range sortedKeys(tab) {
+				res := tab[k]
+				n++
+				key := fmt.Sprintf("%s:%q→%q", fname(fn), k, res)
+				if t, isCanon := canon[strip(k)]; isCanon && t != res {
+					r.Bad("C11-R5", key, fn.Pos(), fmt.Sprintf("%q is a spelling of provider type %q but is normalised to %q: requests for one provider are routed to (and list models of) the other provider's endpoints", k, t, res))
+				} else {
+					r.OK("C11-R5", key, fn.Pos(), "alias stays within its provider family")
+				}
+			}
+		}
+	}
 	if n == 0 {
 		r.Undecided("C11-R5", fname(fn)+":table", fn.Pos(), "no (spelling → canonical) case found in the normaliser")
 	}
@@ -903,9 +917,16 @@ func extraC17Wave2(c *Ctx, r *Report) {
 			// the global bucket: stored into a field of the validator by its constructor
 			if refs := call.Referrers(); refs != nil {
 				for _, ref := range *refs {
-					if st, ok := ref.(*ssa.Store); ok {
-						if _, isFA := st.Addr.(*ssa.FieldAddr); isFA && strings.HasPrefix(topParent(f).Name(), "New") {
-							return
+					// stored directly, or after conversion to a small interface type
+					cands := []ssa.Instruction{ref}
+					if mi, ok := ref.(*ssa.MakeInterface); ok && mi.Referrers() != nil {
+						cands = append(cands, (*mi.Referrers())...)
+					}
+					for _, cd := range cands {
+						if st, ok := cd.(*ssa.Store); ok {
+							if _, isFA := st.Addr.(*ssa.FieldAddr); isFA && strings.HasPrefix(topParent(f).Name(), "New") {
+								return
+							}
 						}
 					}
 				}
